@@ -202,10 +202,14 @@ def derived_not_rounded(ck, date, names, seen):
             d = f"{n}_hh"
             targets.append(d)
             plan.append((d, n, "sum", None))
+    from _gettsim.interface import _add_rounding_to_functions
     try:
-        dag = symdag.Dag(date, targets=targets)
+        # graph structure without rounding (other rules of the graph may lack a spec at this date);
+        # the real rounding step is then applied to each derived node on its own below
+        dag = symdag.Dag(date, targets=targets, rounding=False)
     except Exception as e:
         raise common.HarnessError(f"cannot build the derived-node graph at {date}: {e}")
+    P = dag.params
     for d, src, kind, fac in plan:
         if d not in dag.funcs or dag.kind(d) == "rule":
             continue
@@ -217,10 +221,18 @@ def derived_not_rounded(ck, date, names, seen):
             continue
         seen.add(key)
         ctx = R.Ctx()
+        try:
+            fn_d = _add_rounding_to_functions({d: dag.raw_funcs[d]}, P)[d]
+        except KeyError:
+            # the derived node is marked for rounding (it inherited the key): that is "rounded again"
+            ck.obligations += 1
+            ck.violation(["derived-rounded-again", d], f"{d} (derived from rounded {src}) carries a rounding key of its own at {date}",
+                         {"kind": "derived", "name": d, "src": src, "date": str(date)})
+            continue
         if kind == "time":
             s = R.Sym(z3.Real("s"), float)
             with R.using(ctx):
-                v = R.call_value(dag.funcs[d], [], {src: s})
+                v = R.call_value(fn_d, [], {src: s})
             cons = [z3.Or(R.term_of(v, float) - s.t * zfr(fac) > zfr(fractions.Fraction(1, 10**9)) * z3.If(s.t >= 0, s.t, -s.t) + zfr(fractions.Fraction(1, 10**12)),
                           s.t * zfr(fac) - R.term_of(v, float) > zfr(fractions.Fraction(1, 10**9)) * z3.If(s.t >= 0, s.t, -s.t) + zfr(fractions.Fraction(1, 10**12)))]
             res, m = ck.oblige(f"not-rounded-again {d}<-{src}@{date}", cons, 30,
@@ -230,7 +242,7 @@ def derived_not_rounded(ck, date, names, seen):
             col = colsym.SymArray([R.Sym(z3.Real(f"s{i}"), float) for i in range(n)], float)
             gid = colsym.SymArray([R.Sym(z3.Int(f"g{i}"), int) for i in range(n)], int)
             with R.using(ctx):
-                v = R.call_value(dag.funcs[d], [], {src: col, "hh_id": gid})
+                v = R.call_value(fn_d, [], {src: col, "hh_id": gid})
             pre = [g.t >= 0 for g in gid.e]
             spec = [z3.Sum([z3.If(gid.e[j].t == gid.e[i].t, col.e[j].t, z3.RealVal(0)) for j in range(n)]) for i in range(n)]
             cons = pre + [z3.Or([R.term_of(v.e[i], float) != spec[i] for i in range(n)])]
@@ -240,7 +252,7 @@ def derived_not_rounded(ck, date, names, seen):
         ck.functions |= ctx.funcs
         if res == "sat":
             # replay concretely: call the real derived callable on numpy input
-            ok = replay_derived(dag, d, src, kind, fac)
+            ok = replay_derived(fn_d, d, src, kind, fac)
             if ok:
                 common.spurious("C10", f"derived node {d} model does not reproduce")
             else:
@@ -248,12 +260,12 @@ def derived_not_rounded(ck, date, names, seen):
                              {"kind": "derived", "name": d, "src": src, "date": str(date)})
 
 
-def replay_derived(dag, d, src, kind, fac):
+def replay_derived(fn_d, d, src, kind, fac):
     xs = numpy.array([0.3, 1.7, 100.49, 12345.678])
     if kind == "time":
-        out = numpy.asarray(dag.funcs[d](**{src: xs}), dtype=float)
+        out = numpy.asarray(fn_d(**{src: xs}), dtype=float)
         return bool(numpy.allclose(out, xs * float(fac), rtol=1e-9, atol=1e-12))
-    out = numpy.asarray(dag.funcs[d](**{src: xs, "hh_id": numpy.array([0, 0, 1, 1])}), dtype=float)
+    out = numpy.asarray(fn_d(**{src: xs, "hh_id": numpy.array([0, 0, 1, 1])}), dtype=float)
     return bool(numpy.allclose(out, [2.0, 2.0, 100.49 + 12345.678, 100.49 + 12345.678]))
 
 
